@@ -35,6 +35,9 @@ NOT_APPLICABLE = {
 }
 
 
+VM_NOTE = ('Unit `vm` (Verus, real text of vm/mod.rs): VmPointEval::eval, VmIntervalEval::eval, VmFloatSliceEval::eval and VmGradSliceEval::eval are proved, for every register tape that satisfies tape_ok (operand indices in range, at most choice_count choice clauses) and every input, to compute exactly the run of the reference step function generated from the RegOp variant list (which slot is read, which written, operand order, which choice slot is OR-ed), with the reference meaning of each opcode written down once (f32: IEEE op / named libm function / FloatExt function; Interval and Grad: the method of that name), never to panic, and to return the documented argument error as the only failure. ')
+
+
 def leg_verus(unit):
     return ('verus', unit)
 
@@ -49,9 +52,9 @@ def leg_bounded(contract):
 
 PLAN['C01'] = {
     'level': 'proof',
-    'technique': 'contract-based deductive verification (Verus) of alloc.rs/lru.rs/reg_tape.rs on mechanically extracted real text; bounded native contract runner for interpreter loops and SsaTape::new',
-    'level_text': 'Unbounded proof (all programs, all N in 3..=255, all initial register contents) that register allocation preserves tape semantics, function by function against contracts; the interpreter loops and the graph flattening are outside verifier reach and are covered by labelled bounded stand-ins only.',
-    'level_note': 'Trusted: Verus+Z3, the extractor rewrite rules, assume_specification for mem::take and slice::fill, assume(slot_count < u32::MAX); bounded only: VM interpreter per-opcode contract, SsaTape::new contract, N in {1,2}.',
+    'technique': 'contract-based deductive verification (Verus) of alloc.rs/lru.rs/reg_tape.rs and of the VM interpreter loops of vm/mod.rs on mechanically extracted real text; bounded native contract runner for SsaTape::new and as a second opinion on the interpreters',
+    'level_text': 'Unbounded proof (all programs, all N in 3..=255, all initial register contents) that register allocation preserves tape semantics, function by function against contracts; unbounded proof that the single-point and many-point VM interpreters execute every register tape exactly as the reference step function says (all 54 RegOp arms each, the many-point one column by column against the single-point semantics). The graph flattening (SsaTape::new: hash maps, closures) is outside verifier reach and is covered by a labelled bounded stand-in only.',
+    'level_note': 'Trusted: Verus+Z3, the extractor rewrite rules, assume_specification for mem::take and slice::fill, assume(slot_count < u32::MAX); the stubs and axioms of unit vm (f32 library methods and FloatExt functions as uninterpreted functions, f32 arithmetic total: ax_float_total, VarMap opaque, check_bulk_arguments stub, copy_prefix model of range copy_from_slice, resize_with length spec). Assumed between units: tape_ok of the tapes RegTape::new produces (register/memory ranges are part of the allocator invariant proved in unit alloc; output/input indices and the choice count come from SsaTape::new: bounded). Bounded only: SsaTape::new contract, N in {1,2}; interp_point/interp_bulk stay as an independent native cross-check of the reference meanings.',
     'legs': [leg_verus('alloc'), leg_verus('vm'), leg_bounded('rev_range'), leg_bounded('interp_point'), leg_bounded('interp_bulk'), leg_bounded('flatten'),
              leg_bounded('alloc_cex'), leg_bounded('alloc_small_n')],
     'cex': ['alloc_cex', 'flatten', 'interp_point'],
@@ -60,10 +63,11 @@ PLAN['C01'] = {
         'every well-formed SSA tape and every initial register/memory contents, RegTape::new::<N> yields a register tape whose outputs equal the SSA '
         'tape\'s outputs as terms over uninterpreted per-opcode functions (bit-for-bit equality is equality of terms). Every allocator function, the '
         '11-arm spill table and the 49 dispatch arms are separate obligations; callers see only callee contracts. Bounded stand-ins (labelled, not '
-        'counted as proved): the VM interpreter loops per RegOp variant against the reference opcode meaning, and SsaTape::new (hash maps/closures).'),
+        'counted as proved): SsaTape::new (hash maps/closures). ' + VM_NOTE),
     'assumptions': [
         'ssa_wf(SsaTape::new(..)) - flattening is checked only by the bounded leg `flatten`',
-        'the VM interpreter implements each RegOp variant as the reference meaning of the same-named opcode - bounded leg `interp_*` only',
+        'the reference meaning of an opcode in unit vm is a table written from the opcode documentation (P_UN/P_BIN/P_CH in units/vm/spec.py); the bounded legs interp_* check the same interpreters natively against an independently written table',
+        'tape_ok(tape) for tapes produced by RegTape::new/simplify: operand ranges proved in unit alloc (invariant clause op_ok), output/input indices and choice count assumed from SsaTape::new (bounded leg flatten)',
         'f32 values treated as opaque terms: un_sem/bin_sem uninterpreted (no floating-point reasoning is needed or done)',
     ],
 }
@@ -130,7 +134,7 @@ PLAN['C04'] = {
     'level': 'proof',
     'technique': 'contract-based deductive verification (Verus) of VmData::simplify/VmWorkspace on real text, through the proved contract of RegisterAllocator::op; Kani full-domain harnesses for the trace hypothesis; bounded native contract runner for value preservation and JIT traces',
     'level_text': 'S1 proved unbounded: for every well-formed parent tape, every trace of the right length without Unknown, every register budget M in 3..=255 and any previous workspace contents, simplify cannot panic (all 26 unwrap/assert/panic sites, 11 overflow and 8 index obligations, and the allocator preconditions call by call) and preserves vars and the output count; the hypothesis `a decided choice is valid at every point of the box` is proved for all f32/intervals by Kani. S3 proved unbounded at the SSA level: whenever the trace is valid for the parent run (the value of every decided clause is bit for bit that of the selected operand), the simplified SSA tape yields exactly the outputs of the parent from any initial environment (simulation invariant `ssim`, one semantic transition lemma per kind of arm, all 51 arms). The bounded contract simplify_sem additionally runs real traces from all four tracing evaluators through simplify and compares values natively.',
-    'level_note': 'Trusted: Verus+Z3, Kani/CBMC, extractor rewrite rules (R-orpat, R-iter, R-revnext, R-constdefault, ...). Assumed: parent tape is strict SSA (established by SsaTape::new: bounded leg flatten) and choice_count equals the number of choice clauses. Bounded only: that the traces of the evaluators satisfy the trace hypothesis on whole tapes (per clause it is proved by Kani), JIT traces, (the register tape of the simplified function is proved to compute its SSA tape for the new budget M, from any initial register/memory contents, by the same simulation argument as RegTape::new).',
+    'level_note': 'Trusted: Verus+Z3, Kani/CBMC, extractor rewrite rules (R-orpat, R-iter, R-revnext, R-constdefault, ...). Assumed: parent tape is strict SSA (established by SsaTape::new: bounded leg flatten) and choice_count equals the number of choice clauses. Proved in unit vm: the VM tracing evaluators record exactly the per-clause choice of each clause, in tape order. Not mechanised: the lifting of the per-clause validity (Kani) through the proved run equation to the SSA-level hypothesis tp (needs the order-preservation of RegTape::new, which is not exported by unit alloc); bounded: simplify_sem runs real traces end to end. JIT traces bounded, (the register tape of the simplified function is proved to compute its SSA tape for the new budget M, from any initial register/memory contents, by the same simulation argument as RegTape::new).',
     'legs': [leg_verus('alloc'), leg_verus('simplify'), leg_verus('vm'), leg_kani('leaf'), leg_bounded('simplify_sem'), leg_bounded('jit_trace')],
     'explanation': 'Loop invariant sinv (P1, COV, INJ, P3, Q of DESIGN.md B.3) over (bind, count, allocator allocations, ops, k) plus the LEN equation ops_out.len + live == outputs + count; one transition lemma per kind of arm (skip, alias, emit with 0/1/2 renamed arguments, output); the 51 arms of the loop body are verified in 13 path-partitioned runs.',
     'assumptions': ['ssa_strict(parent tape) and choice_count == #choice clauses (SsaTape::new contract, bounded leg of C01)',
@@ -141,21 +145,21 @@ del NOT_APPLICABLE['C04']
 
 PLAN['C20'] = {
     'level': 'proof',
-    'technique': 'Kani full-domain harnesses for per-clause choice meaning and Choice bit algebra; Verus contracts for counts carried by simplify; bounded native contract runner for the evaluator loops and JIT traces',
-    'level_text': 'Proved for all inputs (Kani, loop-free): every f32/Interval *_choice result is Left/Right/Both and is what the operand values imply; Both iff tie or NaN for min/max; and/or never Both on points; OR-ing into a cleared slot records exactly the clause choice. The per-tape clauses (one entry per clause, None iff all Both, JIT == VM) are bounded stand-ins because the interpreter loops and emitted code are outside verifier reach.',
-    'level_note': 'Trusted: Kani/CBMC/CaDiCaL. Bounded only: trace length/order in the VM loops, JIT traces, output array shapes.',
+    'technique': 'Kani full-domain harnesses for per-clause choice meaning and Choice bit algebra; Verus proofs of the VM tracing and bulk interpreters (one trace entry per choice clause in tape order, OR-ed into a cleared slot, trace returned iff some clause is decided; output matrix shape) and of the counts carried by simplify; bounded native contract runner for JIT traces',
+    'level_text': 'Proved for all inputs (Kani, loop-free): every f32/Interval *_choice result is Left/Right/Both and is what the operand values imply; Both iff tie or NaN for min/max; and/or never Both on points; OR-ing into a cleared slot records exactly the clause choice. Proved for all tapes and inputs (Verus, real text of VmPointEval::eval / VmIntervalEval::eval): the trace has exactly choice_count entries, the k-th choice clause in execution order ORs its choice into entry k of a trace cleared to Unknown (the real Choice::bitor_assign is verified against the bit-field algebra), `simplify` is the disjunction of `choice != Both` over all clauses and a trace is returned iff it is true; for the bulk interpreters the result has exactly output_count rows of exactly `size` samples and every column is the single-point run. JIT == VM traces and JIT output shapes are bounded stand-ins (emitted code is outside verifier reach).',
+    'level_note': 'Trusted: Kani/CBMC/CaDiCaL, Verus+Z3, extractor rewrite rules (R-slotarray, R-choiceiter, R-iter, R-boolor, R-copyprefix, R-itermut, R-deref, R-tail ...), the stubs/axioms of unit vm. Bounded only: JIT traces and JIT output array shapes; Function::size/vars/output_count agreement.',
     'legs': [leg_kani('leaf'), leg_verus('simplify'), leg_verus('vm'), leg_bounded('interp_point'), leg_bounded('trace_vm'), leg_bounded('jit_trace'),
              leg_bounded('interp_bulk'), leg_bounded('jit_bulk'), leg_bounded('reuse')],
-    'explanation': 'Per-clause meaning is a complete proof over all 2^64 operand pairs; the tape-level statements are enumerated by the bounded runner.',
-    'assumptions': ['tape-level clauses are bounded stand-ins (interp_point trace check, trace_vm, jit_trace)'],
+    'explanation': 'Per-clause meaning is a complete proof over all 2^64 operand pairs (Kani); the tape-level statements for the VM evaluators are Verus postconditions of the real eval functions (unit vm); JIT tape-level statements are enumerated by the bounded runner.',
+    'assumptions': ['JIT tape-level clauses are bounded stand-ins (jit_trace, jit_bulk)', 'tape_ok(tape): the number of choice clauses of the register tape is at most choice_count (assumed from SsaTape::new/RegTape::new; simplify proves choice_count == number of choice clauses of its SSA result)'],
 }
 del NOT_APPLICABLE['C20']
 
 PLAN['C11'] = {
     'level': 'proof',
     'technique': 'Verus total-mode proofs (every assert!/panic!/unwrap/index/overflow in alloc.rs, lru.rs, reg_tape.rs, simplify is an obligation); Kani full-domain totality harnesses for Interval operations; bounded native contract runner for the evaluators',
-    'level_text': 'Proved: the compiler core (register allocation for N in 3..=255, simplify) cannot panic on well-formed tapes; Interval select/round operations return normally on ALL valid intervals including infinite bounds and the NaN interval (Kani, complete); add/sub/scale/neg are total on all valid intervals (Verus on the real text, under the float axioms: after the repair the obligation is monotonicity of one f32 operation, which CBMC cannot decide). The evaluator loops, the remaining Interval arithmetic and the JIT are bounded stand-ins.',
-    'level_note': 'Trusted: Verus+Z3, Kani/CBMC. Not covered: stack exhaustion, allocation failure. Bounded only: interpreter/JIT evaluators on overflow grids, argument-error paths.',
+    'level_text': 'Proved: the compiler core (register allocation for N in 3..=255, simplify) cannot panic on well-formed tapes; Interval select/round operations return normally on ALL valid intervals including infinite bounds and the NaN interval (Kani, complete); add/sub/scale/neg are total on all valid intervals (Verus on the real text, under the float axioms: after the repair the obligation is monotonicity of one f32 operation, which CBMC cannot decide). The four VM evaluator loops cannot panic on tapes satisfying tape_ok: every slot/output/input index, every advance of the choice cursor and every range copy is an obligation of the Verus proofs of the real eval functions (unit vm), and the only failure is the documented argument error. The remaining Interval arithmetic and the JIT are bounded stand-ins.',
+    'level_note': 'Trusted: Verus+Z3, Kani/CBMC. Not covered: stack exhaustion, allocation failure. Bounded only: JIT evaluators, Interval/Grad arithmetic other than the functions of unit interval on overflow grids, VarMap::check_bulk_arguments (stub in unit vm).',
     'legs': [leg_verus('alloc'), leg_verus('simplify'), leg_verus('interval'), leg_verus('vm'), leg_kani('leaf'), leg_bounded('interp_interval'), leg_bounded('total'), leg_bounded('jit_interval_valid')],
     'cex': ['total', 'interp_interval', 'alloc_cex', 'simplify_sem'],
     'explanation': 'Totality of the integer state machines is a corollary of their total-mode proofs; the genuine defect found here (Interval add/sub/scale panicking on NaN bounds) is repaired in /repo (fix: 081f714).',
@@ -166,8 +170,8 @@ del NOT_APPLICABLE['C11']
 PLAN['C03'] = {
     'level': 'proof',
     'technique': 'Kani full-domain harnesses for local interval enclosure of comparison/select operations; bounded native contract runner (interval interpreter vs reference point semantics) for arithmetic and transcendental operations',
-    'level_text': 'Proved for all intervals and all member points (Kani, bit-precise, loop-free): min, max, and, or, not, compare, abs, neg enclose the point result, with the NaN-interval convention. Proved in Verus on the real text under the stated float axioms (monotone correctly-rounded + - *, NaN propagation, total order): Add, Sub, Mul<f32>, Neg are total on all valid intervals and enclose exactly (0 ulp). The remaining arithmetic and transcendental operations, the interpreter dispatch and the JIT are bounded stand-ins on a stated grid.',
-    'level_note': 'Trusted: Kani/CBMC. Bounded only: add, sub, mul, div, square, sqrt, recip, floor/ceil/round, exp, ln, trig, atan2, rem_euclid, mix, rand; interpreter dispatch; JIT. Out of scope: wgsl shader.',
+    'level_text': 'Proved for all intervals and all member points (Kani, bit-precise, loop-free): min, max, and, or, not, compare, abs, neg enclose the point result, with the NaN-interval convention. Proved in Verus on the real text under the stated float axioms (monotone correctly-rounded + - *, NaN propagation, total order): Add, Sub, Mul<f32>, Neg are total on all valid intervals and enclose exactly (0 ulp). The interpreter dispatch is proved (unit vm: VmIntervalEval::eval applies, for every RegOp variant, the Interval method of that name to the right operands in the right order and writes the right slot). The remaining arithmetic and transcendental operations and the JIT are bounded stand-ins on a stated grid.',
+    'level_note': 'Trusted: Kani/CBMC, Verus+Z3 with the float axioms of unit interval. Bounded only: mul, div, square, trig, atan2, rem_euclid, mix, rand; JIT; the composition of per-operation enclosure over a whole tape is the standard induction over the proved run equation (not mechanised). Out of scope: wgsl shader.',
     'legs': [leg_kani('leaf'), leg_verus('interval'), leg_verus('vm'), leg_bounded('interp_interval'), leg_bounded('jit_interval')],
     'cex': ['interp_interval'],
     'explanation': 'The local obligation per opcode is exactly the observation the property names: a in A, b in B => op(a,b) in OP(A,B) unless NaN.',
@@ -177,8 +181,8 @@ del NOT_APPLICABLE['C03']
 
 PLAN['C05'] = {
     'level': 'other',
-    'technique': 'Kani full-domain harnesses on Grad select operations (value lane equals the point operation, lane uniformity, selected-operand derivative)',
-    'level_text': 'Partial: for min, max, abs, neg the gradient value equals the point value for arbitrary seed lanes, lanes are treated uniformly and the derivative lanes are those of the selected operand (all f32 inputs, Kani). Arithmetic/transcendental derivative rules (bounded contract grad_rules: every RegOp variant against the textbook rule on a grid, arbitrary seeds) and the JIT (jit_grad) are bounded stand-ins, not discharged obligations.',
+    'technique': 'Kani full-domain harnesses on Grad select operations (value lane equals the point operation, lane uniformity, selected-operand derivative); Verus proof of the VM gradient interpreter dispatch (unit vm)',
+    'level_text': 'Partial: for min, max, abs, neg the gradient value equals the point value for arbitrary seed lanes, lanes are treated uniformly and the derivative lanes are those of the selected operand (all f32 inputs, Kani). Proved (Verus, unit vm): VmGradSliceEval::eval applies, for every RegOp variant and every sample, the Grad operation of that name to the right operands in the right order (Recip as 1/x, Square as x*x, MulRegImm as scaling), so the chain rule through a tape is exactly the composition of the per-operation rules. Arithmetic/transcendental derivative rules (bounded contract grad_rules: every RegOp variant against the textbook rule on a grid, arbitrary seeds) and the JIT (jit_grad) are bounded stand-ins, not discharged obligations.',
     'level_note': 'Trusted: Kani/CBMC. Not covered: derivative rules of arithmetic ops (relational float arithmetic is out of CBMC reach), symbolic derivative, JIT gradient evaluator.',
     'legs': [leg_kani('leaf'), leg_verus('vm'), leg_bounded('grad_rules'), leg_bounded('jit_grad')],
     'explanation': 'Only comparison/select bodies are tractable for CBMC; the rest is stated as not covered.',
@@ -202,10 +206,10 @@ PLAN['C10'] = {
     'level': 'proof',
     'technique': 'contract-based deductive verification (Verus): RegisterAllocator::reset establishes exactly the abstract view of new (`fresh`), simplify\'s contract is independent of the previous workspace/tape contents, the allocator theorem holds from arbitrary initial slot contents; bounded native contract runner for evaluator/storage reuse',
     'level_text': 'Proved unbounded: reset(size, tape) yields the same complete abstract view as new(size) whatever the allocator held before (allocations, registers, LRU order, spare lists, empty tape, slot_count 0); VmWorkspace::reset likewise; simplify\'s proved postconditions mention neither old(workspace) nor the recycled tape; stale register/memory contents are unobservable because the C01 theorem is quantified over all initial slot contents. Evaluator objects, JIT Mmap reuse and Function::recycle are bounded stand-ins (all ordered pairs of 12 functions x 3 backends x 4 evaluator kinds).',
-    'level_note': 'Trusted: Verus+Z3; assume_specification for slice::fill and mem::take; vstd specs of Vec::resize/clear. Bounded only: TracingVmEval/BulkVmEval::resize_slots, JIT storage growth, RenderHandle.',
+    'level_note': 'Trusted: Verus+Z3; assume_specification for slice::fill and mem::take; vstd specs of Vec::resize/clear. Proved in unit vm: TracingVmEval::resize_slots and BulkVmEval::resize_slots give slots/outputs/trace exactly the shape of the new tape whatever the evaluator held before, the trace is cleared to Unknown, and the results of the four VM eval functions are functions of the tape, the inputs and the (arbitrary) initial slot contents only. Bounded only: JIT storage growth, RenderHandle.',
     'legs': [leg_verus('alloc'), leg_verus('simplify'), leg_verus('vm'), leg_bounded('reuse')],
     'explanation': 'reset == new on the view is the postcondition `fresh(size)` shared by both functions; see units/alloc/spec.py',
-    'assumptions': ['evaluator-object reuse is enumerated, not proved'],
+    'assumptions': ['JIT evaluator-object reuse and Function::recycle are enumerated, not proved'],
     'cex': ['reuse'],
 }
 del NOT_APPLICABLE['C10']
